@@ -411,10 +411,13 @@ fn r_simple(s: &Simple, sf: &mut Surface, out: &mut String) {
         Simple::SetErrexit(true) => out.push_str(if sf.next(2) == 0 { "set -e" } else { "set -o errexit" }),
         Simple::SetErrexit(false) => out.push_str(if sf.next(2) == 0 { "set +e" } else { "set +o errexit" }),
         Simple::Fail(f) => match f {
-            Fail::RedirRegular(id) => out.push_str(&format!("mark {id} </nonexistent/x")),
-            Fail::RedirFunction(j) => out.push_str(&format!("{} </nonexistent/x", FN_NAMES[*j as usize])),
-            Fail::RedirCompound(id) => out.push_str(&format!("{{ mark {id}; }} </nonexistent/x")),
-            Fail::RedirSpecial => out.push_str(": </nonexistent/x"),
+            // a redirection error is a redirection error whatever its cause: a missing file, a
+            // descriptor number beyond the limit of 256 set for these runs, a closed source descriptor (the varied surface
+            // rendering picks among them; the canonical one uses the missing file)
+            Fail::RedirRegular(id) => out.push_str(&format!("mark {id} {}", redir_error(sf))),
+            Fail::RedirFunction(j) => out.push_str(&format!("{} {}", FN_NAMES[*j as usize], redir_error(sf))),
+            Fail::RedirCompound(id) => out.push_str(&format!("{{ mark {id}; }} {}", redir_error(sf))),
+            Fail::RedirSpecial => out.push_str(&format!(": {}", redir_error(sf))),
             Fail::SpecialError => out.push_str("shift 9"),
             Fail::CommandSpecialError => out.push_str("command shift 9"),
             Fail::SourceMissing => out.push_str(". /nonexistent/file"),
@@ -619,6 +622,15 @@ pub fn r_list(n: &Node, sf: &mut Surface, out: &mut String) {
 
 /// Prelude for running a program with the real `yash3` main (no probe built-ins): the probes are
 /// shell functions printing `M <id> <$? on entry>` through an external utility.
+fn redir_error(sf: &mut Surface) -> &'static str {
+    match sf.next(4) {
+        1 => "300>/dev/null",
+        2 => "<&77",
+        3 => "5>&88",
+        _ => "</nonexistent/x",
+    }
+}
+
 pub const REAL_PRELUDE: &str = "mark() { /bin/echo \"M $1 $?\" >&2; }\nst() { return $1; }\nmb() { /bin/echo \"M 9005 $?\" >&2; return 5; }\ncnt() { eval \"_v=\\${_c_$1:-0}\"; eval \"_c_$1=\\$(( _v < $2 ? _v + 1 : _v ))\"; return $(( _v < $2 ? 0 : 1 )); }\n";
 
 pub fn render(p: &Program, surface: u32) -> String {
